@@ -210,31 +210,13 @@ func c20(r *Run) {
 		return
 	}
 	sort.SliceStable(W, func(i, j int) bool { return W[i].at.Before(W[j].at) })
-	sort.SliceStable(refunds, func(i, j int) bool { return refunds[i].Before(refunds[j]) })
 	rr := float64(rps)
-	// First the bound relaxed by the tokens the code handed back after failed
-	// rated writes (a violation of that is not explained by refunds), then the
-	// strict bound of the statement.
-	for pass := 0; pass < 2; pass++ {
-		for i := 0; i < len(W); i++ {
-			for j := i + burst; j < len(W); j++ {
-				dt := W[j].at.Sub(W[i].at).Seconds()
-				extra := 0
-				if pass == 0 {
-					for _, f := range refunds {
-						if !f.After(W[j].at) {
-							extra++
-						}
-					}
-				}
-				if float64(j-i+1) > float64(burst+extra)+rr*dt+1e-3 {
-					if pass == 0 {
-						r.Violate("send-budget-exceeded", "%d rate-limited datagrams written within %.6fs (from +%v): limiter allows burst %d + %d/s x window = %.3f (and only %d token(s) were handed back after failed writes)", j-i+1, dt, W[i].at.Sub(r.Start), burst, rps, float64(burst)+rr*dt, extra)
-					} else {
-						r.Violate("budget-exceeded-by-refunded-token", "%d rate-limited datagrams written within %.6fs (from +%v): limiter allows burst %d + %d/s x window = %.3f; the excess is within the %d token(s) handed back after failed rated writes while other senders were waiting for budget", j-i+1, dt, W[i].at.Sub(r.Start), burst, rps, float64(burst)+rr*dt, len(refunds))
-					}
-					return
-				}
+	for i := 0; i < len(W); i++ {
+		for j := i + burst; j < len(W); j++ {
+			dt := W[j].at.Sub(W[i].at).Seconds()
+			if float64(j-i+1) > float64(burst)+rr*dt+1e-3 {
+				r.Violate("send-budget-exceeded", "%d rate-limited datagrams written within %.6fs (from +%v): limiter allows burst %d + %d/s x window = %.3f (%d rated write(s) failed before)", j-i+1, dt, W[i].at.Sub(r.Start), burst, rps, float64(burst)+rr*dt, len(refunds))
+				return
 			}
 		}
 	}
